@@ -102,6 +102,8 @@ def run(ctx):
                                                      big_first=cid[1] % 8 == 6,                    # a cell file of 70 001 events
                                                      n_samples=int(rng.integers(2, 5)) if cid[1] % 4 in (2, 3) else None,
                                                      blank_units_last=cid[1] % 4 in (2, 3),        # last row: no fluorescence channel reported
+                                                     float_frac=0.75 if cid[1] % 4 == 0 else 0.3,  # several floating-point rows (negative events:
+                                                     n_inst=1 if cid[1] % 4 == 0 else None,        #  per-row logicle bins) on one instrument
                                                      units_pool=(['Channel', 'Channel', 'RFI', 'a.u.', 'MEF', 'au'] if cid[1] % 4 == 3      # raw-channel cells before converted ones
                                                                  else excelgen.UNITS))
         if cid[1] % 4 in (1, 3):
